@@ -1,10 +1,10 @@
 """C08 - stored logs are byte-exact and isolated per task."""
 import logscen
-THEOREMS = [("Properties.C08", "C08_holds"), ("AsFound.C08", "C08_as_found_refuted")]
+THEOREMS = [("Properties.C08", "C08_holds"), ("AsFound.C08", "C08_as_found_refuted"), ("Properties.C08", "C08_liveness_holds")]
 CORRESPONDENCE = "monorail run with children writing scripted chunks/pauses on both streams; stored *.zst decoded independently == Model.Reader.run (out = arrived)"
 LEVEL_NOTE = ("Coq theorem C08_holds: (reader) for every sequence of arrivals, polls, flush ticks and end of stream - any line lengths, no trailing newline, pauses inside a line, any bytes - "
               "once the reader has returned without error the compressor has been handed exactly the bytes written, in order; (compressor) for every number of threads and every interleaving "
-              "of sends and receives, what is written to or queued for a log file is exactly what its own client sent. Partial: zstd, BufReader, OS pipes and the select! race itself are "
+              "of sends and receives, what is written to or queued for a log file is exactly what its own client sent. C08_liveness_holds: after the child closes its pipe, every continuation with (unread bytes + 2) polls makes the reader return, so the first clause's premise is always reachable. Partial: zstd, BufReader, OS pipes and the select! race itself are "
               "runtime. Tied by real runs of 1-24 concurrent tasks writing text and binary chunks with pauses that straddle the 500 ms flush inside a line; logs decoded with the zstd crate; "
               "log show parsed into header + bytes per log.")
 TRUSTED = ["Coq 8.16.1 kernel; no axioms", "tokio read_until appends partial data to the caller's buffer (tokio 1.41.1 source); mpsc is FIFO per channel", "zstd round trip; OS pipes deliver bytes in order",
